@@ -7,5 +7,6 @@ CONSTANTS
   Merge = "grid"
   Sep = "each"
   Dedup = "none"
+  Width = "widest"
 POSTCONDITION TraceAccepted
 CHECK_DEADLOCK FALSE
